@@ -4,7 +4,7 @@
 EXTENDS Extends
 CONSTANTS N, ChainOnly   \* ChainOnly: only the graphs whose services are all on the chain that starts at the first one
 Nodes == 1..N
-Names == <<"a", "b", "c", "d">>
+Names == <<"a", "b", "c", "d", "e">>
 Dirs == <<<<>>, <<"sub">>>>
 VARIABLES g, expectError
 \* loading the main file resolves every service of file 1
